@@ -101,6 +101,8 @@ def match_known(prop, failure, known):
                 ok = ok and fv != val["not"]
             elif isinstance(val, dict) and "le" in val:
                 ok = ok and fv is not None and fv <= val["le"]
+            elif isinstance(val, dict) and "ge" in val:
+                ok = ok and fv is not None and fv >= val["ge"]
             else:
                 ok = ok and fv == val
         if ok:
